@@ -1,8 +1,8 @@
 (* C16 - Host health state is never lost, and thresholds are exact.  Only statements here; proofs by `exact`. *)
 From Coq Require Import List NArith Bool.
 From MV Require Import Lib.Interleave Gen.HealthOps Gen.HealthLoop Gen.HealthStoreOps Model.Health Model.HealthCheck
-  Model.HealthLoop Model.HealthStore Gen.HealthXferTokens Model.HealthTransfer
-  Proofs.Health Proofs.HealthCheck Proofs.HealthLoop Proofs.HealthStore Proofs.HealthTransfer.
+  Model.HealthLoop Model.HealthStore Gen.HealthXferTokens Model.HealthTransfer Gen.HealthLifecycleTokens Model.HealthLifecycle
+  Proofs.Health Proofs.HealthCheck Proofs.HealthLoop Proofs.HealthStore Proofs.HealthTransfer Proofs.HealthLifecycle.
 Import ListNotations.
 Open Scope N_scope.
 
@@ -224,3 +224,43 @@ Proof.
   cbn zeta. split; [reflexivity|split; [|vm_compute; reflexivity]].
   repeat constructor; intros a b Ha Hb; cbn in Ha, Hb; intuition (subst; reflexivity).
 Qed.
+
+(* Sixth part: the checker LIFECYCLE (Model/HealthLifecycle.v).  `stop_mode` = what healthChecker.stopCheck does with the
+   flag of the host whose session is stopped, READ FROM healthchecker.go.  The FAILED_ACTIVE_HC condition of an address
+   lives in the shared word and outlives sessions, host objects and checkers.  For every state and every lifecycle
+   operation (SetHealthCheckerHostSet dropping / adding / keeping addresses, Stop; a cluster update is Stop + a new
+   checker) the condition of EVERY address is unchanged: it changes only at check results (c16_lifecycle_result_step:
+   only the result's own address, exactly as the threshold automaton says, `changed` iff it changed), so
+   c16_threshold_exact governs every change.  Type-checks only while stopCheck touches no health flag. *)
+Theorem c16_lifecycle_translator_ok : HealthLifecycleTokens_translator_ok = true.
+Proof. exact (eq_refl true). Qed.
+
+Theorem c16_lifecycle_keeps_flags : forall u h st o, is_result o = false ->
+  flags (fst (lc_step stop_mode u h st o)) = flags st.
+Proof. exact (lifecycle_of_mode stop_mode (eq_refl StopKeeps)). Qed.
+Print Assumptions c16_lifecycle_keeps_flags.
+
+Theorem c16_lifecycle_result_step : forall u h, thr_ok u -> thr_ok h -> forall st a r st' cb,
+  lc_step stop_mode u h st (LResult a r) = (st', cb) ->
+  (forall j, j <> a -> nth_error st' j = nth_error st j) /\
+  match nth_error st a with
+  | Some (mkA fl (Some (unc, hcc))) =>
+      exists c, cb = Some c /\
+        option_map a_flag (nth_error st' a) = Some (hflag (fst (hc_step u h (mkHC fl unc hcc) r))) /\
+        c = snd (hc_step u h (mkHC fl unc hcc) r) /\
+        (fst c = true <-> hflag (fst (hc_step u h (mkHC fl unc hcc) r)) <> fl)
+  | _ => st' = st /\ cb = None
+  end.
+Proof. exact (result_step stop_mode). Qed.
+Print Assumptions c16_lifecycle_result_step.
+
+Theorem c16_lifecycle_stop_clears_refuted : ~ lifecycle_statement StopClears.
+Proof. exact stop_clears_refuted. Qed.
+Print Assumptions c16_lifecycle_stop_clears_refuted.
+
+Example c16_lifecycle_example :
+  flags (lc_run stop_mode 2 2 [mkA false None; mkA false None]
+           [LSetHosts [0; 1]%nat; LResult 0 RFailure; LResult 0 RFailure; LStopAll; LSetHosts [0; 1]%nat; LResult 0 RSuccess;
+            LSetHosts [1%nat]; LSetHosts [0; 1]%nat; LResult 0 RSuccess])
+  = [true; false].
+Proof. vm_compute. reflexivity. Qed.
